@@ -26,10 +26,17 @@ def run(prop, tier, seed, known):
         print("[E3] %s: %d programs, %d queries, %d discharged, %d sat, %d inconclusive, %.0fs" % (
             prop, rep.get("programs", 0), rep.get("queries", 0), rep.get("discharged", 0), len(rep["violations"]), len(rep.get("inconclusive", [])), rep["wall_s"]), flush=True)
         reps.append(rep)
-    if prop in ("C13", "C03"):
+    if prop in ("C13", "C03", "C04"):
+        p = subprocess.run(["python3-vt", os.path.join(HERE, "pathq.py"), prop, tier, "--json"], stdout=subprocess.PIPE, stderr=subprocess.PIPE, text=True)
+        lines = [l for l in p.stdout.strip().split("\n") if l.startswith("[{")]
         try:
-            import pathq
-            reps += pathq.run(prop, tier, seed)
-        except ImportError:
-            pass
+            rs = json.loads(lines[-1])
+            for l in p.stdout.split("\n"):
+                if l.startswith("[E2-pathq]"):
+                    print(l, flush=True)
+        except Exception:
+            rs = [{"engine": "E2-mirsym-pathq", "inconclusive": ["engine crashed: " + (p.stderr[-1500:] or p.stdout[-500:])], "violations": [], "queries": 0}]
+        for r in rs:
+            r["violations"] = [tuple(v) for v in r.get("violations", [])]
+        reps += rs
     return reps
